@@ -40,7 +40,7 @@ func (c12) Meta() fw.Meta {
 			"an absent series is the same observable as the all-zero empty series (nil vs zero-length), see DESIGN.md section 4 (fix 0902534)",
 			"error texts are not compared, only success/failure and the not-exist classification",
 		},
-		Obligations: []string{"pairs_view", "pairs_view_raw", "pairs_sum", "pairs_files", "pairs_items", "pairs_success_with_data", "pairs_notexist", "pairs_error", "absent_series_pairs", "escaped_name_pairs", "past_window_pairs", "bad_pattern_pairs", "cli_pairs", "cli_copy_pairs", "cli_diff_remote_side", "path_below_regular_file_pairs", "cases_with_concurrent_clients", "listings_repeated_after_tree_change", "cases_in_a_non_utc_zone", "reads_while_writer_holds_file", "server_socket_writes_delayed", "concurrent_noise_requests_served"},
+		Obligations: []string{"pairs_view", "pairs_view_raw", "pairs_sum", "pairs_files", "pairs_items", "pairs_success_with_data", "pairs_notexist", "pairs_error", "absent_series_pairs", "escaped_name_pairs", "past_window_pairs", "bad_pattern_pairs", "cli_pairs", "cli_copy_pairs", "cli_diff_remote_side", "path_below_regular_file_pairs", "cases_with_concurrent_clients", "listings_repeated_after_tree_change", "cases_in_a_non_utc_zone", "reads_while_writer_holds_file", "servers_with_a_repointed_base_link", "servers_started_inside_the_tree", "listings_from_a_peer_that_breaks_off", "server_socket_writes_delayed", "concurrent_noise_requests_served"},
 		Workers:     8,
 	}
 }
@@ -393,6 +393,84 @@ func (c12) Run(c *fw.Ctx) {
 			}
 		}
 	})
+	// a peer that dies in the middle of a listing: the answer is an error (not "nothing matched", not a shorter list)
+	if c.Index%3 == 2 && !c.Violated() && !hung {
+		proxy := breakingListingProxy(u)
+		for _, q := range []struct{ kind, pat string }{{"files", caseDir + "/*/*.wsp"}, {"items", caseDir + "/*"}} {
+			var ln, rn []string
+			var lerr, rerr error
+			if q.kind == "files" {
+				ln, lerr = wcmd.VerifGlobFiles(served, q.pat)
+				remote("files", fw.J{"pattern": q.pat, "peer": "breaks off"}, func() { rn, rerr = wcmd.VerifGlobFiles(proxy.URL, q.pat) })
+			} else {
+				ln, lerr = wcmd.VerifGlobItems(served, q.pat)
+				remote("items", fw.J{"pattern": q.pat, "peer": "breaks off"}, func() { rn, rerr = wcmd.VerifGlobItems(proxy.URL, q.pat) })
+			}
+			c.Count("listings_from_a_peer_that_breaks_off", 1)
+			if lerr != nil || len(ln) < 2 {
+				continue
+			}
+			if rerr == nil && strings.Join(ln, "\n") != strings.Join(rn, "\n") {
+				c.Violationf("remote-local-differ:"+q.kind, fw.J{"pattern": q.pat, "local": ln, "remote": rn, "peer": "announced the whole listing, sent half of it and closed the connection"},
+					"the peer broke off in the middle of the %s listing: the client returned %d of %d names without an error", q.kind, len(rn), len(ln))
+				break
+			}
+			if rerr != nil && os.IsNotExist(rerr) {
+				c.Violationf("remote-local-differ:"+q.kind, fw.J{"pattern": q.pat, "local": ln, "remote_err": rerr.Error()},
+					"the peer broke off in the middle of the %s listing: the client reports the pattern as matching nothing", q.kind)
+				break
+			}
+		}
+		proxy.Close()
+	}
+	// servers started the way an operator might: the base is a symbolic link that is re-pointed to another tree while
+	// the server runs; the server is started inside the tree with -base . or with the flag's default
+	if c.Index%3 == 1 && !c.Violated() && !hung {
+		own := filepath.Join(c.TmpDir(), "own")
+		treeA, treeB := filepath.Join(own, "release1"), filepath.Join(own, "release2")
+		writeFixture(filepath.Join(treeA, "d", "f.wsp"), l1, genContent(r, l1, vnow, 0.6), vnow)
+		writeFixture(filepath.Join(treeB, "d", "f.wsp"), l1, genContent(r, l1, vnow, 0.6), vnow)
+		writeFixture(filepath.Join(treeB, "d", "only-in-2.wsp"), l1, genContent(r, l1, vnow, 0.6), vnow)
+		link := filepath.Join(own, "current")
+		os.Symlink(treeA, link)
+		check := func(u, base, what string) {
+			for _, rel := range []string{"d/f.wsp", "d/only-in-2.wsp", "d/nothing.wsp"} {
+				var lt, rt wcmd.TimeSeriesList
+				var lerr, rerr error
+				local("view", fw.J{"file": rel, "server": what}, func() { _, lt, lerr = wcmd.VerifReadWhisperFile(base, rel, -1, 0, u32(vnow), u32(vnow)) })
+				remote("view", fw.J{"file": rel, "server": what}, func() { _, rt, rerr = wcmd.VerifReadWhisperFile(u, rel, -1, 0, u32(vnow), u32(vnow)) })
+				pair("view", fw.J{"file": rel, "server": what}, lerr, rerr, func() string { return tslEqual(lt, rt) })
+			}
+			var ln, rn []string
+			var lerr, rerr error
+			local("files", fw.J{"pattern": "d/*.wsp", "server": what}, func() { ln, lerr = wcmd.VerifGlobFiles(base, "d/*.wsp") })
+			remote("files", fw.J{"pattern": "d/*.wsp", "server": what}, func() { rn, rerr = wcmd.VerifGlobFiles(u, "d/*.wsp") })
+			pair("files", fw.J{"pattern": "d/*.wsp", "server": what}, lerr, rerr, func() string {
+				if strings.Join(ln, "\n") != strings.Join(rn, "\n") {
+					return fmt.Sprintf("name lists differ (%s): %q vs %q", what, ln, rn)
+				}
+				return ""
+			})
+		}
+		if cmd1, u1, _, err := startServerIn(cliBin(c), link, "", os.Environ()); err == nil {
+			check(u1, link, "base is a symbolic link")
+			os.Symlink(treeB, link+".new")
+			os.Rename(link+".new", link)
+			check(u1, link, "base is a symbolic link, re-pointed to another tree while the server runs")
+			stopServer(cmd1)
+			c.Count("servers_with_a_repointed_base_link", 1)
+		}
+		for _, b := range []string{".", ""} {
+			if c.Violated() || hung {
+				break
+			}
+			if cmd2, u2, _, err := startServerIn(cliBin(c), b, treeA, os.Environ()); err == nil {
+				check(u2, treeA, fmt.Sprintf("started inside the tree with -base %q", b))
+				stopServer(cmd2)
+				c.Count("servers_started_inside_the_tree", 1)
+			}
+		}
+	}
 	// a request that arrives while a writer holds the file (changes made, not yet synced): through the directory the
 	// read waits for the writer and sees its result; through the server it must be the same
 	if !c.Violated() && !hung && len(rels) > 0 {
